@@ -62,6 +62,7 @@ func runWorld(t *rapid.T, prop string) {
 		gen.MinPathLen, gen.MaxPathLen = 124, 136
 		longInputs = true
 	}
+	gen.AllowPartial = !unanimous
 	gen.AllowDivergent = !unanimous && (prop == "C02" || prop == "C07" || prop == "C03")
 	profile := rapid.SampledFrom(vnet.Profiles).Draw(t, "profile")
 	if forced := os.Getenv("VERIF_PROFILE"); forced != "" {
@@ -191,6 +192,8 @@ func runWorld(t *rapid.T, prop string) {
 		fmt.Sprintf("dropped>0:%v", w.Stats.Dropped > 0),
 		fmt.Sprintf("hijack-converge:%v/commit:%v", w.Stats.HijackConverges > 0, w.Stats.HijackCommits > 0),
 		fmt.Sprintf("forged-flood>0:%v", w.Stats.ForgedFloods > 0),
+		fmt.Sprintf("two-stage-validation-path:%v", cfg.PartialPath),
+		fmt.Sprintf("transplanted-justification>0:%v", w.Stats.Transplants > 0),
 		fmt.Sprintf("supp-variant>0:%v", w.Stats.SuppVariants > 0),
 		fmt.Sprintf("validated-then-queued>0:%v", w.Stats.StagedReceived > 0),
 		fmt.Sprintf("participant-with-diverged-base-view:%v", len(cfg.Divergent) > 0 && !cfg.DivergentSupp),
